@@ -40,6 +40,9 @@ type c16Case struct {
 	AESet     bool
 	Batches   [][]c16Send
 	CloseLast bool // end with Close(false): exercises the transport's own close packet
+	// Pre: response headers a host application's handler has set on the ResponseWriter before it delegates to
+	// the engine (defaults such as Content-Type: text/html)
+	Pre http.Header
 }
 
 func (c c16Case) String() string {
@@ -51,7 +54,7 @@ func (c c16Case) String() string {
 		}
 		bs = append(bs, "["+strings.Join(ps, " ")+"]")
 	}
-	return fmt.Sprintf("{rev%d b64=%v jsonp=%v j=%q threshold=%d accept-encoding=%q(set=%v) batches=%s close=%v}", c.Rev, c.B64, c.JSONP, c.J, c.Threshold, c.AE, c.AESet, strings.Join(bs, " "), c.CloseLast)
+	return fmt.Sprintf("{rev%d b64=%v jsonp=%v j=%q threshold=%d accept-encoding=%q(set=%v) batches=%s close=%v preset=%v}", c.Rev, c.B64, c.JSONP, c.J, c.Threshold, c.AE, c.AESet, strings.Join(bs, " "), c.CloseLast, c.Pre)
 }
 
 var c16AEs = []string{"gzip", "deflate", "br", "zstd", "gzip, deflate, br", "deflate, gzip;q=0.5", "br;q=1.0, zstd;q=0.8", "identity", "*", "compress", "GZIP", " gzip ", "gzip,deflate", "x-gzip", "xgzip", "abbr", "notdeflated", "zstdx, brotli", "bri, dez", "", "gzip;q=0", "gz ip"}
@@ -106,6 +109,12 @@ func genC16(rt *rapid.T, knownDeflate, knownSubstr, knownV3BinText bool, col *Co
 		c.Batches = append(c.Batches, b)
 	}
 	c.CloseLast = rapid.IntRange(0, 3).Draw(rt, "closeLast") == 0
+	switch rapid.IntRange(0, 5).Draw(rt, "preset") {
+	case 0:
+		c.Pre = http.Header{"Content-Type": {"text/html; charset=utf-8"}, "X-Content-Type-Options": {"nosniff"}}
+	case 1:
+		c.Pre = http.Header{"Content-Type": {"application/json"}, "Content-Length": {"0"}, "Vary": {"Accept-Language"}}
+	}
 	if knownV3BinText && c.Rev == 3 && !c.B64 {
 		// recorded parser finding: in a revision-3 binary payload non-ASCII text is written double-encoded
 		for i, b := range c.Batches {
@@ -179,6 +188,14 @@ func checkPollResponse(c c16Case, pc *PollClient, s ExSnap, want []Pkt, anyCompr
 	}
 	if s.HeaderCalls != 1 {
 		return fmt.Sprintf("%d WriteHeader calls", s.HeaderCalls)
+	}
+	for _, k := range []string{"Content-Type", "Content-Length", "Content-Encoding"} {
+		if v := s.Header.Values(k); len(v) > 1 {
+			return fmt.Sprintf("response carries %d %s header lines %q", len(v), k, v)
+		}
+	}
+	if c.Pre != nil {
+		stats["headers-preset-by-the-host-application"] = true
 	}
 	cl := hdrGet(s.Header, "Content-Length")
 	if n, err := strconv.Atoi(cl); err != nil || n != len(s.Body) {
@@ -293,7 +310,7 @@ func runC16(c c16Case) (fail string, stats map[string]bool) {
 	if c.Rev == 3 {
 		eio = "3"
 	}
-	pc := &PollClient{W: w, O: ClientOpts{Rev: c.Rev, EIO: eio, B64: c.B64, JSONP: c.JSONP, J: c.J, Extra: hdr}}
+	pc := &PollClient{W: w, O: ClientOpts{Rev: c.Rev, EIO: eio, B64: c.B64, JSONP: c.JSONP, J: c.J, Extra: hdr, PreHeader: c.Pre}}
 	hs := pc.StartHandshake()
 	Settle()
 	// the handshake response is a poll response like any other: it carries the open packet
@@ -411,7 +428,7 @@ func runC16(c c16Case) (fail string, stats map[string]bool) {
 
 func TestC16PollResponses(t *testing.T) {
 	col := NewCollector("TestC16PollResponses",
-		"rapid: polling/JSONP session x revision x b64 x httpCompression threshold {default,0,1,100,1024,2^30} x Accept-Encoding {absent, each coding, lists, q-values, case/space variants, tokens that merely contain a coding name (xgzip, abbr, notdeflated, bri), identity, *} x j parameter (digits, letters, injection attempts, non-ASCII digits) x 1-4 batches of 1-4 messages (texts needing escapes: quotes, backslashes, newlines, U+2028/2029, </script>, <!--, control bytes; sizes around the thresholds; binary) with per-packet Compress unset/true/false, ending with Close(false) or a server-side close that releases the pending poll; oracle: Content-Length == bytes written; Content-Encoding only if a packet asked, body >= threshold and the coding is a token of Accept-Encoding, and the body decodes under that coding (deflate = zlib format) with an independent decoder; payload decodes with the independent codec of the revision to exactly the packets handed to the transport (or the transport's own close/noop); Content-Type matches the nature of the body; JSONP: ___eio[<digits of j>](\"<one strict JS string literal>\"); with no raw <, >, &, U+2028/9. non-trivial: a compressed response, a JSONP payload needing escapes, or a binary v3 body").Use(t)
+		"rapid: polling/JSONP session x revision x b64 x httpCompression threshold {default,0,1,100,1024,2^30} x Accept-Encoding {absent, each coding, lists, q-values, case/space variants, tokens that merely contain a coding name (xgzip, abbr, notdeflated, bri), identity, *} x j parameter (digits, letters, injection attempts, non-ASCII digits) x 1-4 batches of 1-4 messages (texts needing escapes: quotes, backslashes, newlines, U+2028/2029, </script>, <!--, control bytes; sizes around the thresholds; binary) with per-packet Compress unset/true/false, ending with Close(false) or a server-side close that releases the pending poll; optionally response headers already set on the ResponseWriter by a host application (Content-Type text/html, Content-Length 0, Vary, nosniff); oracle: one Content-Type / Content-Length / Content-Encoding line each; Content-Length == bytes written; Content-Encoding only if a packet asked, body >= threshold and the coding is a token of Accept-Encoding, and the body decodes under that coding (deflate = zlib format) with an independent decoder; payload decodes with the independent codec of the revision to exactly the packets handed to the transport (or the transport's own close/noop); Content-Type matches the nature of the body; JSONP: ___eio[<digits of j>](\"<one strict JS string literal>\"); with no raw <, >, &, U+2028/9. non-trivial: a compressed response, a JSONP payload needing escapes, or a binary v3 body").Use(t)
 	knownDeflate := isKnown("C16", sigDeflateRaw)
 	knownSubstr := isKnown("C16", sigCodingSubstr)
 	knownV3BinText := isKnown("C16", sigV3BinText)
@@ -435,7 +452,7 @@ func TestC16PollResponses(t *testing.T) {
 			rt.Fatalf("%v: %s", clipStr(c.String(), 800), clipStr(res.Leak, 1500))
 		}
 	})
-	req := []string{"compressed", "coding.gzip", "coding.br", "coding.zstd", "jsonp", "jsonp-escape-needed", "v3-binary-body", "multi-packet-batch", "close-packet", "transport-own-packet"}
+	req := []string{"headers-preset-by-the-host-application", "compressed", "coding.gzip", "coding.br", "coding.zstd", "jsonp", "jsonp-escape-needed", "v3-binary-body", "multi-packet-batch", "close-packet", "transport-own-packet"}
 	if !knownDeflate {
 		req = append(req, "coding.deflate")
 	}
